@@ -35,12 +35,13 @@ import NitroVerif.Gen.Guards
   * `eqCmp = nil` (Insert2 as the harness calls it), `dealloc` frees the private node — invisible.
   * `Iterator.deleted` is never set in package skiplist.  `it.count` and `it.smrInterval` are modelled
     (`Iter.count`, `Iter.interval`, 0 = the initial `^uint(0)`): at the END of Next, after the cursor moved,
-    `count++` and, when `count % interval == 0`, `Refresh()` (ITER_REFRESH, then Seek of the current item).  The barrier (Acquire/Release) has no yield point here
+    `count++` and, when `count % interval == 0`, `Refresh()` (ITER_REFRESH, then Seek of the current item).  The public
+    `Refresh()` called by the user (`Op.itRefresh`) enters at the same yield point without touching `count`.  The barrier (Acquire/Release) has no yield point here
     and no effect on the list; `usedBytes` is not printed by the protocol and not modelled.
   * Ghost state: `FP.startLen` (heap length when the findPath call started) is written once and never read by
     the model; it only serves to state "published before the search started" in the theorems.
-  * `Iterator.Next`'s re-search passes `it.curr.Item()`; the driver refuses `it_next` unless the cursor
-    is on a real item (Valid()), so `itemOfKey` is only applied to `Key.fin`.
+  * `Iterator.Next`'s re-search passes `it.curr.Item()`; the driver refuses `it_next` (and `it_refresh`) unless the
+    cursor is on a real item (Valid()), so `itemOfKey` is only applied to `Key.fin`.
 -/
 namespace NitroVerif.SkipConc
 open NitroVerif
@@ -148,7 +149,7 @@ inductive Cont where
   /-- Iterator.Next: re-search after a failed helpDelete (`last` = it.curr) -/
   | iterNext (it : Nat)
   | iterSeek (it : Nat)
-  /-- Iterator.Refresh (from the end of Next): `it.Seek(current item)`, then Next returns -/
+  /-- Iterator.Refresh (from the end of Next, or called explicitly: `Op.itRefresh`): `it.Seek(current item)`, then the call returns -/
   | iterRefresh (it : Nat)
 deriving Repr, DecidableEq
 
@@ -449,6 +450,8 @@ inductive Op where
   | itClose (it : Nat)
   /-- `it.SetRefreshInterval(n)`, n ≥ 1 -/
   | itInterval (it n : Nat)
+  /-- the PUBLIC `it.Refresh()` called by the user between two Next calls (same precondition as `itNext`: `Valid()`) -/
+  | itRefresh (it : Nat)
 deriving Repr
 
 /-- `start`: the thread enters the call and runs to its first yield point (no shared write) -/
@@ -479,6 +482,15 @@ def startOp (sh : Shared) (th : Thread) : Op → Res
   | .itInterval it n =>
     match th.iter? it with
     | some I => if 1 ≤ n then (sh, th.setIter it { I with interval := n }, "ret") else (sh, th, "bad-op")
+    | none => (sh, th, "bad-op")
+  | .itRefresh it =>
+    -- explicit `Refresh()`: `if it.Valid() { currBs := it.bs; itm := it.Get(); it.bs = Acquire(); verifYield(ITER_REFRESH) …`;
+    -- `count` is not touched, nothing shared is written; the rest is `stepIterRefresh` and the Seek
+    match th.iter? it with
+    | some I =>
+      match keyOf sh.heap I.curr with
+      | .fin _ => (sh, { th with pc := .iterRefresh it }, "at ITER_REFRESH")
+      | _ => (sh, th, "bad-op")
     | none => (sh, th, "bad-op")
 
 structure Sys where
